@@ -115,7 +115,7 @@ Definition markers_ok (g : list packet) : Prop :=
 
 Lemma seqs_ok_app seq ps qs : seqs_ok seq ps -> seqs_ok (seq_add seq (nlen ps)) qs -> seqs_ok seq (ps ++ qs).
 Proof.
-  intros H1 H2 i p H. destruct (N.ltb_spec i (nlen ps)).
+  clear Hmax Hcfg. intros H1 H2 i p H. destruct (N.ltb_spec i (nlen ps)).
   - rewrite nnth_app_l in H by assumption. now apply H1.
   - rewrite nnth_app_r in H by assumption. apply H2 in H. rewrite H, seq_add_add. f_equal. lia.
 Qed.
@@ -207,6 +207,12 @@ Proof.
     + destruct b as [|b0 bt]; [now rewrite IH|]. cbn [concat]. rewrite IH. reflexivity.
 Qed.
 
+Lemma batch_loop_ne aus : forall b, batch_loop c max aus b <> [].
+Proof.
+  induction aus as [|a t IH]; intros b; cbn [batch_loop]; [discriminate|].
+  destruct (len_agg b (Some a) <=? max); [apply IH|]. destruct b; [apply IH|discriminate].
+Qed.
+
 Lemma batch_loop_nonempty aus : forall b, (b <> [] \/ aus <> []) -> Forall (fun x => x <> []) (batch_loop c max aus b).
 Proof.
   induction aus as [|a t IH]; intros b H; cbn [batch_loop].
@@ -268,10 +274,10 @@ Theorem enc_wellformed seq aus : seq < 65536 -> Forall (fun a => a <> []) aus ->
   exists gs, enc_groups (batch_loop c max aus []) 0 seq = Some gs /\
     enc c max seq aus = Some (concat gs, seq_add seq (nlen (concat gs))) /\
     Forall (fun g => g <> [] /\ markers_ok g /\ Forall (fun p => psize p <= max) g) gs /\
-    seqs_ok seq (concat gs).
+    seqs_ok seq (concat gs) /\ nlen gs = nlen (batch_loop c max aus []).
 Proof.
   intros Hs Hne.
-  destruct (enc_groups_wf (batch_loop c max aus []) 0 seq Hs) as (gs & Hgs & _ & Hall & Hseq).
+  destruct (enc_groups_wf (batch_loop c max aus []) 0 seq Hs) as (gs & Hgs & Hlen & Hall & Hseq).
   - apply batch_loop_ok. intros H. cbn in H. lia.
   - assert (G : forall bs, Forall (fun a : bytes => a <> []) (concat bs) -> Forall (Forall (fun a : bytes => a <> [])) bs).
     { induction bs as [|x t IHb]; intros H; constructor; cbn [concat] in H; apply Forall_app in H; [tauto|apply IHb; tauto]. }
@@ -1026,7 +1032,7 @@ Theorem roundtrip seq f d : valid_frame f -> seq < 65536 -> clean d -> sniff_saf
     concat (batch_loop c max f []) = f /\ length gs = length (batch_loop c max f []).
 Proof.
   intros Hv Hs Hcl Hsn.
-  destruct (enc_wellformed c max Hmax seq f Hs (valid_nonempty f Hv)) as (gs & Hg & He & _ & _).
+  destruct (enc_wellformed c max Hmax seq f Hs (valid_nonempty f Hv)) as (gs & Hg & He & _ & _ & _).
   pose proof (batch_loop_concat c max f []) as Hcat. cbn [app] in Hcat.
   destruct (dec_groups _ gs 0 seq d Hg (batches_valid f Hv) Hcl) as (d' & Hr & Hc & Hrd & _).
   - now rewrite Hcat.
@@ -1165,18 +1171,15 @@ Proof.
   specialize (IH d' H1). destruct r; try (destruct (dec_run c d' t); exact IH). exact H1.
 Qed.
 
-Lemma enc_last_marker seq f : valid_frame f -> seq < 65536 ->
+Lemma enc_last_marker seq f : Forall (fun a : bytes => a <> []) f -> seq < 65536 ->
   exists gs ps p, enc c max seq f = Some (concat gs, seq_add seq (nlen (concat gs))) /\
     concat gs = ps ++ [p] /\ pmarker p = true.
 Proof.
   intros Hv Hs.
-  destruct (enc_wellformed c max Hmax seq f Hs (valid_nonempty f Hv)) as (gs & Hg & He & Hall & _).
+  destruct (enc_wellformed c max Hmax seq f Hs Hv) as (gs & Hg & He & Hall & _ & Hlen).
   assert (Hgs : gs <> []).
-  { intros ->. destruct f as [|a t]; [destruct Hv as (Hv & _); contradiction|].
-    pose proof (batch_loop_nonempty c max (a :: t) [] (or_intror ltac:(discriminate))) as Hn.
-    destruct (batch_loop c max (a :: t) []) as [|b bt]; [|cbn [enc_groups] in Hg].
-    - pose proof (batch_loop_concat c max (a :: t) []) as Hc. destruct (batch_loop c max (a :: t) []); cbn in Hc; discriminate.
-    - destruct (write_batch c max b 0 seq); [|discriminate]. destruct (enc_groups c max bt _ _); discriminate. }
+  { intros ->. pose proof (batch_loop_ne c max f []) as Hn. destruct (batch_loop c max f []); [contradiction|].
+    cbn [nlen] in Hlen. lia. }
   destruct (exists_last Hgs) as (gs' & g & ->).
   apply Forall_app in Hall. destruct Hall as [_ Hg']. inversion Hg' as [|? ? (Hgne & Hgm & _) _]; subst.
   destruct (exists_last Hgne) as (g' & p & ->).
@@ -1197,7 +1200,7 @@ Theorem resync hist f1 f2 s1 s2 :
     frames_of rs = f2 /\ Forall progress rs /\ ready d2.
 Proof.
   intros Hv1 Hv2 Hs1 Hs2 d0 Hset.
-  destruct (enc_last_marker s1 f1 Hv1 Hs1) as (gs1 & ps & p & He1 & Hcat & Hm).
+  destruct (enc_last_marker s1 f1 (valid_nonempty f1 Hv1) Hs1) as (gs1 & ps & p & He1 & Hcat & Hm).
   assert (HI0 : Inv d0) by (apply (dec_run_inv c Hcfg hist dinit inv_init)).
   pose proof (absorb ps d0 p HI0 Hm) as Hcl. rewrite <- Hcat in Hcl.
   pose proof (dec_run_settled (concat gs1) d0 Hset) as Hset1.
@@ -1207,4 +1210,68 @@ Proof.
   exists (concat gs1), ps2, (seq_add s1 (nlen (concat gs1))), q2, d2, rs. splits; assumption.
 Qed.
 
+(* C06 across any series of Encode calls *)
+Theorem enc_many_wellformed fs : forall seq, seq < 65536 -> Forall (Forall (fun a : bytes => a <> [])) fs ->
+  exists pss, enc_many c max seq fs = Some pss /\ nlen pss = nlen fs /\
+    seqs_ok seq (concat pss) /\ Forall (fun p => psize p <= max) (concat pss) /\
+    Forall (fun ps => exists ps' p, ps = ps' ++ [p] /\ pmarker p = true) pss.
+Proof.
+  induction fs as [|f t IH]; intros seq Hs Hne; cbn [enc_many].
+  - exists []. splits; try reflexivity; try constructor. intros i p H. cbn in H. discriminate.
+  - inversion Hne as [|? ? Hf Ht]; subst.
+    destruct (enc_wellformed c max Hmax seq f Hs Hf) as (gs & _ & He & Hall & Hseq & _).
+    destruct (enc_last_marker seq f Hf Hs) as (gs' & ps' & p & He' & Hcat & Hm).
+    rewrite He in He'. injection He' as Hgs _. rewrite He.
+    destruct (IH (seq_add seq (nlen (concat gs))) (seq_add_lt _ _) Ht) as (pss & Hem & Hlen & Hseq' & Hsz' & Hmk').
+    rewrite Hem. cbn [option_map]. exists (concat gs :: pss). splits.
+    + reflexivity.
+    + cbn [nlen]. now rewrite Hlen.
+    + cbn [concat]. now apply seqs_ok_app.
+    + cbn [concat]. apply Forall_app. split; [|assumption].
+      clear - Hall. induction Hall as [|g gt (_ & _ & Hg) _ IHg]; [constructor|]. cbn [concat]. apply Forall_app. now split.
+    + constructor; [|assumption]. exists ps', p. split; [congruence|assumption].
+Qed.
+
 End R2.
+
+(* ====================================================================================== *)
+(* ---------- C07 without the "settled" hypothesis is FALSE of the code ---------- *)
+(* SizeLength/IndexLength/IndexDeltaLength = 13/3/3, PayloadMaxSize 12 (8 data bytes per fragment).
+   Frame 0 is one 16-byte AU whose second half happens to be a well-formed ADTS packet
+   (FF F1 50 80 01 1F FC + 1 byte).  Its first packet is lost; the second one is a marker packet
+   with a single AU, the first AU list this decoder ever returns: the sniff in removeADTS fires,
+   the decoder enters ADTS mode for good, and the intact frames 1 and 2 are both rejected. *)
+Definition w_cfg : cfg := mkCfg 13 3 3.
+Definition w_f0 : list bytes := [[1;2;3;4;5;6;7;8; 255;241;80;128;1;31;252;9]].
+Definition w_f1 : list bytes := [[10;11;12]].
+Definition w_f2 : list bytes := [[13;14]; [15]].
+
+Lemma w_valid f : f <> [] -> Forall (fun a => 0 < nlen a /\ nlen a < 100) f -> nlen f < 100 -> valid_frame w_cfg f.
+Proof.
+  intros Hne Hf Hn. unfold valid_frame. splits; [assumption| |].
+  - eapply Forall_impl; [|exact Hf]. intros a [H1 H2]. unfold au_ok, piece_ok, cap, GVG.Consts.mpeg4audio_max_au. cbn [sl w_cfg].
+    change (2 ^ 13) with 8192. lia.
+  - unfold hbits, hw; cbn [sl il idl w_cfg]. destruct (nlen f =? 0); lia.
+Qed.
+
+Theorem resync_refuted :
+  exists c max f0 f1 f2 ps0 ps1 ps2 s1 s2 s3,
+    cfg_ok c /\ minmax c <= max /\ valid_frame c f0 /\ valid_frame c f1 /\ valid_frame c f2 /\
+    Forall (fun a => adts_like a = false) (f0 ++ f1 ++ f2) /\
+    enc c max 0 f0 = Some (ps0, s1) /\ enc c max s1 f1 = Some (ps1, s2) /\ enc c max s2 f2 = Some (ps2, s3) /\
+    (* frame 0 loses its first packet; frames 1 and 2 arrive intact; frame 2 is NOT returned *)
+    snd (dec_run c (fst (dec_run c (fst (dec_run c dinit (tl ps0))) ps1)) ps2) = [DErr].
+Proof.
+  exists w_cfg, 12, w_f0, w_f1, w_f2. do 6 eexists.
+  splits.
+  - unfold cfg_ok; cbn. lia.
+  - vm_compute. discriminate.
+  - apply w_valid; [discriminate|repeat constructor; cbn; lia|cbn; lia].
+  - apply w_valid; [discriminate|repeat constructor; cbn; lia|cbn; lia].
+  - apply w_valid; [discriminate|repeat constructor; cbn; lia|cbn; lia].
+  - repeat constructor.
+  - vm_compute. reflexivity.
+  - vm_compute. reflexivity.
+  - vm_compute. reflexivity.
+  - vm_compute. reflexivity.
+Qed.
